@@ -90,13 +90,16 @@ theorem deriveNum_after_e (p : Bytes) (e : UInt8) (he : e = 101 ∨ e = 69) :
   have : (p ++ [e]).getLast? = some e := by simp
   rcases he with h | h <;> subst h <;> simp [this]
 
-/-- scanning the whole text of a valid JSON number -/
-theorem num_scan (lc : Libc) (t : Tok) (l : Loc) (cur : JVal) (nm : Option Bytes) (rest : List Level)
-    (hs : t.stack = ⟨.eatws, .start, cur, nm⟩ :: rest) (hv : NoVal t) (n : Num) (hok : n.ok = true) :
-    ∃ t' l', NumSt t t' l' cur nm rest n.text (n.frac.isSome || n.exp.isSome) ∧ Reaches lc t l n.text t' l' := by
-  obtain ⟨neg, ip, frac, ex⟩ := n
-  simp only [Num.ok, Bool.and_eq_true] at hok
-  obtain ⟨⟨⟨hip, _⟩, hfr⟩, hex⟩ := hok
+/-- scanning the whole text of a number `-? digits (. digits)? ((e|E) (+|-)? digits)?` - superfluous
+leading zeros included: the scanner does not look at them -; without an exponent the text scanned
+contains no 'e' / 'E' -/
+theorem num_scan_parts (lc : Libc) (t : Tok) (l : Loc) (cur : JVal) (nm : Option Bytes) (rest : List Level)
+    (hs : t.stack = ⟨.eatws, .start, cur, nm⟩ :: rest) (hv : NoVal t) (neg : Bool) (ip : List Nat) (frac : Option (List Nat))
+    (ex : Option (Bool × Option Bool × List Nat)) (hip : digitsOk ip = true)
+    (hfr : (match frac with | none => true | some f => digitsOk f) = true)
+    (hex : (match ex with | none => true | some (_, _, e) => digitsOk e) = true) :
+    ∃ t' l', NumSt t t' l' cur nm rest (Num.text ⟨neg, ip, frac, ex⟩) (frac.isSome || ex.isSome) ∧
+      Reaches lc t l (Num.text ⟨neg, ip, frac, ex⟩) t' l' ∧ (ex = none → NoE (Num.text ⟨neg, ip, frac, ex⟩)) := by
   have hipd := digitsOk_lt ip hip
   -- sign and integer part
   have hint : ∃ t1 l1, NumSt t t1 l1 cur nm rest (signByte neg ++ digitsText ip) false ∧
@@ -136,7 +139,8 @@ theorem num_scan (lc : Libc) (t : Tok) (l : Loc) (cur : JVal) (nm : Option Bytes
   obtain ⟨t2, l2, s2, ne2, r2⟩ := hfrac
   -- exponent
   cases ex with
-  | none => exact ⟨t2, l2, by simpa [signByte, fracText, expText, signText, Num.text] using s2, by simpa [signByte, fracText, expText, signText, Num.text] using r2⟩
+  | none => exact ⟨t2, l2, by simpa [signByte, fracText, expText, signText, Num.text] using s2, by simpa [signByte, fracText, expText, signText, Num.text] using r2,
+      fun _ => by simpa [signByte, fracText, expText, signText, Num.text] using ne2⟩
   | some e =>
     obtain ⟨up, sg, ed⟩ := e
     have hed := digitsOk_lt ed (by simpa [signByte, fracText, expText, signText] using hex)
@@ -163,11 +167,21 @@ theorem num_scan (lc : Libc) (t : Tok) (l : Loc) (cur : JVal) (nm : Option Bytes
           exact ⟨tb, lb, by simpa [signByte, fracText, expText, signText] using sb, by simpa [signByte, fracText, expText, signText] using rb⟩
     obtain ⟨tb, lb, sb, rb⟩ := hsign
     obtain ⟨tc, lc', sc, rc⟩ := num_digits lc t cur nm rest hv ed hed.1 tb lb _ true sb
-    refine ⟨tc, lc', ?_, ?_⟩
+    refine ⟨tc, lc', ?_, ?_, fun h => by cases h⟩
     · have : (frac.isSome || true) = true := by simp
       simpa [signByte, fracText, expText, signText, Num.text, eb, List.append_assoc] using sc
     · have := Reaches.trans r2 (Reaches.trans ra (Reaches.trans rb rc))
       simpa [signByte, fracText, expText, signText, Num.text, eb, List.append_assoc] using this
+
+/-- scanning the whole text of a valid JSON number -/
+theorem num_scan (lc : Libc) (t : Tok) (l : Loc) (cur : JVal) (nm : Option Bytes) (rest : List Level)
+    (hs : t.stack = ⟨.eatws, .start, cur, nm⟩ :: rest) (hv : NoVal t) (n : Num) (hok : n.ok = true) :
+    ∃ t' l', NumSt t t' l' cur nm rest n.text (n.frac.isSome || n.exp.isSome) ∧ Reaches lc t l n.text t' l' := by
+  obtain ⟨neg, ip, frac, ex⟩ := n
+  simp only [Num.ok, Bool.and_eq_true] at hok
+  obtain ⟨⟨⟨hip, _⟩, hfr⟩, hex⟩ := hok
+  obtain ⟨t', l', h1, h2, _⟩ := num_scan_parts lc t l cur nm rest hs hv neg ip frac ex hip hfr hex
+  exact ⟨t', l', h1, h2⟩
 
 /-! ### the byte after the number, and the classification -/
 
